@@ -46,6 +46,10 @@ type PEP425Tag struct {
 	Platform string
 }
 
+// maxWheelTags bounds the number of compatibility tags a wheel name may expand
+// to. Real wheels have at most a few dozen.
+const maxWheelTags = 1 << 16
+
 // ParseWheelName extracts all of the information in the name of a wheel. The
 // wheel naming format is described in PEP 427
 // (https://www.python.org/dev/peps/pep-0427/#file-name-convention). The name
@@ -85,6 +89,11 @@ func ParseWheelName(name string) (*WheelInfo, error) {
 		Python:   parts[len(parts)-3],
 		ABI:      parts[len(parts)-2],
 		Platform: parts[len(parts)-1],
+	}
+	// A compressed tag set expands to the product of its three sets; bound
+	// it so that a hostile name cannot ask for billions of tags.
+	if n := (strings.Count(tag.Python, ".") + 1) * (strings.Count(tag.ABI, ".") + 1) * (strings.Count(tag.Platform, ".") + 1); n > maxWheelTags {
+		return nil, fmt.Errorf("invalid wheel name: compressed tag set expands to %d tags, more than %d", n, maxWheelTags)
 	}
 	pwi.Platforms = expandPEP425Tag(tag)
 	return pwi, nil
